@@ -545,6 +545,13 @@ def main(argv=None):
         args.tier = "quick"
 
     if args.replay:
+        if os.environ.get("AMRK_CHILD") != "1":
+            # a replay is a function of the file and the code only: re-execute in an interpreter prepared exactly
+            # like the workers that produced it (fixed hash seed, hook guard on, single-threaded libraries)
+            env = child_env()
+            env["AMRK_CHILD"] = "1"
+            return subprocess.run([PY, "-X", "faulthandler", os.path.join(HERE, "runner.py")] + list(argv if argv is not None else sys.argv[1:]),
+                                  env=env, cwd=VERIF).returncode
         return replay_main(args)
     if args.case is not None:
         mod = importlib.import_module(f"sim.props.{args.prop.lower()}")
